@@ -1,5 +1,7 @@
 package main
 
+import "sort"
+
 // Property table: which functions are under contract for which property.
 
 func init() {
@@ -149,7 +151,7 @@ func init() {
 		Partial: []string{
 			modPath + "/json.(*Minifier).Minify", modPath + "/xml.(*Minifier).Minify", modPath + "/svg.(*Minifier).Minify",
 			modPath + "/css.(*Minifier).Minify", modPath + "/html.(*Minifier).Minify", modPath + "/js.(*Minifier).Minify",
-			modPath + ".UpdateErrorPosition",
+			modPath + ".UpdateErrorPosition", modPath + ".(*cmdMinifier).Minify",
 		},
 		Units: []string{modPath + ".(*writer).Close", modPath + ".(*M).Reader$go1", modPath + ".(*M).Writer$go1", modPath + ".(*responseWriter).Write$go1"},
 		Notes: []string{
@@ -276,6 +278,7 @@ func init() {
 		Units: []string{
 			modPath + "/css.minifyColor", modPath + "/css.(Token).IsZero", modPath + "/css.minifyLengthPercentage",
 			modPath + "/css.minifyNumberPercentage", modPath + "/css.(*cssMinifier).minifyDimension",
+			modPath + ".Decimal", // KeepCSS2 numbers go through Decimal
 		},
 		Custom:  []string{"partial", "tables"},
 		Partial: []string{modPath + "/css.(*cssMinifier).minifyProperty", modPath + "/css.(*cssMinifier).minifyGrammar", modPath + "/css.(*cssMinifier).minifySelectors", modPath + "/css.(*cssMinifier).minifyTokens"},
@@ -299,7 +302,7 @@ func init() {
 		Partial: []string{
 			modPath + "/svg.(*PathData).copyInstruction", modPath + "/svg.(*PathData).shortenCurPosInstruction",
 			modPath + "/svg.(*PathData).shortenAltPosInstruction", modPath + "/svg.(*Minifier).Minify",
-			modPath + "/svg.skipTag", modPath + "/svg.(*Minifier).shortenDimension",
+			modPath + "/svg.skipTag", modPath + "/svg.(*Minifier).shortenDimension", modPath + "/svg.printTag",
 		},
 		Notes: []string{
 			"separator elision under full contract (copyNumber / copyFlag, all inputs): the buffer only grows; a number is written without a separator only when re-lexing cannot fuse it with what precedes (previous token is a command or flag, or the number starts with '-', or it starts with '.' and the previous number already has a '.' or an exponent); a lone 0 after a fraction becomes .0; the trailing 00 -> e2 rewrite happens only for integers (F15 found and fixed: 1e100 became 1e1e2); prevDigitIsInt is exactly 'the written number has no dot or exponent'; flags are one character, preceded by a separator unless a flag precedes",
@@ -337,7 +340,8 @@ func init() {
 		Partial: []string{modPath + "/js.isBooleanExpr", modPath + "/js.endsInIf", modPath + "/js.isFalsy", modPath + "/js.mergeBinaryExpr",
 			modPath + "/js.(*jsMinifier).minifyParams", modPath + "/js.(*jsMinifier).minifyExpr",
 			modPath + "/js.isUndefined", modPath + "/js.isUndefinedOrNull", modPath + "/js.toNullishExpr",
-			modPath + "/js.hasSideEffects", modPath + "/js.mergeVarDeclExprStmt", modPath + "/js.(*jsMinifier).optimizeCondExpr"},
+			modPath + "/js.hasSideEffects", modPath + "/js.mergeVarDeclExprStmt", modPath + "/js.(*jsMinifier).optimizeCondExpr",
+			modPath + "/js.(*jsMinifier).hoistVars", modPath + "/js.(*jsMinifier).minifyProperty"},
 		Notes: []string{
 			"operator table lemmas (jstables, exhaustive ground evaluation): every entry of binaryOpPrecMap / binaryLeftPrecMap / binaryRightPrecMap / unaryOpPrecMap / unaryPrecMap of the real js/util.go equals the level the ECMAScript expression grammar gives that operator (reference/js-operators.json), no operator of the grammar is missing (a missing entry reads as the lowest level - F18 found and fixed: the logical assignment operators were missing and a&&=(b,c) lost its parentheses), nothing extra, and the dependency's OpPrec levels are ordered by binding strength",
 			"isBooleanExpr is SOUND (answers true only for expressions that evaluate to a Boolean) and endsInIf is COMPLETE (answers true for every statement whose printed form ends with an else-less if) - postconditions on the real recursive functions, proved branch by branch from ECMAScript facts that are assumed at the site where the code inspects the corresponding node form (`at ... assume [ES ...]`, listed under assumptions); the recursive calls are used through the function's own contract",
@@ -349,4 +353,31 @@ func init() {
 			"not decided: observational equivalence of whole programs - it needs an operational semantics of ECMAScript and an induction over the printer and every rewrite (statement merging, ASI, hoisting, optimizeCondExpr/optimizeUnaryExpr, isTruthy/isFalsy, hasSideEffects, string/number/template/regexp literal rewriting); the parenthesisation logic that USES the tables (groupExpr and the printer) is not verified, only the tables; A-parser: AST nodes are non-nil",
 		},
 	})
+	// C10 ("no panic"): every unit under FULL contract anywhere in this framework is also a unit of C10 - all of its
+	// obligations (safety ones included) must discharge there, so that an edit inside such a function that introduces
+	// an unprovable index or slice expression is reported by C10 itself and not only by the property the unit was
+	// written for (in the zero-annotation sweep a NEW undischarged obligation is merely undecided)
+	if c10 := props["C10"]; c10 != nil {
+		seen := map[string]bool{}
+		for _, u := range c10.Units {
+			seen[u] = true
+		}
+		var ids []string
+		for id := range props {
+			ids = append(ids, id)
+		}
+		sort.Strings(ids)
+		for _, id := range ids {
+			if id == "C10" {
+				continue
+			}
+			for _, u := range props[id].Units {
+				if !seen[u] {
+					seen[u] = true
+					c10.Units = append(c10.Units, u)
+				}
+			}
+		}
+	}
+
 }
